@@ -229,3 +229,37 @@ Print Assumptions C06_topn_exact.
 Print Assumptions C06_merge_paging.
 Print Assumptions C06_collect_exact.
 Print Assumptions C06_wand_single_sound.
+
+(* ===================== theorems added after the first build (deeper proofs) ===================== *)
+From TV Require Import Rank.WandUnionBase Rank.WandUnionProofs.
+
+(* Block-max WAND for UNIONS (block_wand: find_pivot_doc, block_max_was_too_low_advance_one_scorer, align_scorers,
+   advance_all_scorers_on_pivot, restore_ordering) is sound and terminates: for any number of posting lists with
+   arbitrary block boundaries, any collector whose threshold never decreases, under the bounds contract (block max >=
+   every score in the block, max_score >= every block max, scores >= 0), the pruned run ends in exactly the state
+   exhaustive scoring of the union reaches, within an explicit fuel bound. *)
+Theorem C06_wand_union_sound :
+  forall (St : Type) (thr : St -> Z) (step : St -> N -> Z -> St),
+  (forall st d x, (thr st <= thr (step st d x))%Z) ->
+  forall (scs : list scorer) (st : St) (fuel : nat),
+  Forall scorer_ok scs -> Forall union_bounds scs -> union_fuel scs <= fuel ->
+  block_wand St thr step fuel scs st = Some (exhaustive St thr step (union_postings scs) st).
+Proof. exact wand_union_sound. Qed.
+
+Theorem C06_wand_union_terminates :
+  forall (St : Type) (thr : St -> Z) (step : St -> N -> Z -> St),
+  (forall st d x, (thr st <= thr (step st d x))%Z) ->
+  forall (scs : list scorer) (st : St),
+  Forall scorer_ok scs -> Forall union_bounds scs ->
+  block_wand St thr step (union_fuel scs) scs st <> None.
+Proof. exact wand_union_terminates. Qed.
+
+(* the max_score clause of the contract is necessary (the F6 failure mode) *)
+Theorem C06_wand_union_needs_max_score_bound_refuted :
+  block_wand top1_state (top1_thr (-1)) (top1m_step (-1)) (union_fuel wu_bad) wu_bad None = Some (Some (3%N, 3%Z)) /\
+  exhaustive top1_state (top1_thr (-1)) (top1m_step (-1)) (union_postings wu_bad) None = Some (5%N, 10%Z) /\
+  Forall scorer_ok wu_bad /\ Forall upper_bounds wu_bad.
+Proof. exact wand_union_needs_max_score_bound_refuted. Qed.
+
+Print Assumptions C06_wand_union_sound.
+Print Assumptions C06_wand_union_terminates.
